@@ -244,6 +244,13 @@ func checkProperty(prop, tier, repo, verif string, seed int, t0 time.Time) int {
 	if len(vcs) == 0 {
 		return fail("no contract clause is tagged with " + prop)
 	}
+	return finishCheck(eng, prop, tier, repo, verif, seed, t0, evPath, vcs, timeout, nil, nil, false)
+}
+
+// finishCheck discharges the obligations of the given VCs and reports: known findings, violations (with replays),
+// evidence. extraCov / extraAssume are merged into the evidence; ignoreUnsupported: constructs outside the subset
+// are recorded but do not make the function undecided (used by sweeps that only track a part of the state).
+func finishCheck(eng *Engine, prop, tier, repo, verif string, seed int, t0 time.Time, evPath string, vcs []*VC, timeout int, extraCov map[string]any, extraAssume []string, ignoreUnsupported bool) int {
 	dir := scratchDir()
 	defer os.RemoveAll(dir)
 	findings := loadFindings(filepath.Join(verif, "known_findings.txt"))
@@ -282,7 +289,7 @@ func checkProperty(prop, tier, repo, verif string, seed int, t0 time.Time) int {
 		}
 		fns = append(fns, fnInfo{shortType(vc.fnName), len(vc.obls), file})
 		sort.Slice(vc.obls, func(i, j int) bool { return vc.obls[i].Name < vc.obls[j].Name })
-		if len(vc.unsupported) > 0 {
+		if len(vc.unsupported) > 0 && !ignoreUnsupported {
 			// the function left the supported subset: nothing about it is decided
 			o := &Obligation{Name: "in-subset:" + shortType(vc.fnName), Kind: "subset", Result: "unknown", Model: strings.Join(vc.unsupported, "\n")}
 			vc.obls = append(vc.obls, o)
@@ -387,6 +394,11 @@ func checkProperty(prop, tier, repo, verif string, seed int, t0 time.Time) int {
 		"samples":                  samples,
 		"contract_files":           eng.db.files,
 	}
+	for k, v := range extraCov {
+		ev.Coverage[k] = v
+	}
+	ev.Assumptions = append(ev.Assumptions, extraAssume...)
+	sort.Strings(ev.Assumptions)
 	b, _ := json.MarshalIndent(ev, "", " ")
 	os.WriteFile(evPath, b, 0o644)
 	fmt.Printf("%s: %d obligations, %d discharged, %d violations, %d known findings, %.1fs\n", prop, nObl, nOK, violations, len(knownHit), time.Since(t0).Seconds())
